@@ -62,6 +62,12 @@ def main():
         rows.append(f"| {seed} | {m['property']} | {m.get('needs_to_manifest', '')[:160]} | {cells} |")
     with open(os.path.join(SEEDED, 'MATRIX.md'), 'w') as fh:
         fh.write('# Seeded changes vs. checks (quick tier, VERIF_SEED=1; written by tools/seed_matrix.py)\n\n')
+        metas = [json.load(open(os.path.join(SEEDED, x, 'meta.json'))) for x in sorted(os.listdir(SEEDED)) if os.path.isdir(os.path.join(SEEDED, x))]
+        live = [m for m in metas if not m.get('retired')]
+        own = sum(1 for m in live if m['property'] in m.get('detected_by', []))
+        other = sum(1 for m in live if m.get('detected_by') and m['property'] not in m['detected_by'])
+        fh.write(f"{len(live)} kept seeds ({len(metas) - len(live)} retired): {own} caught by the check of their own property, {other} only by the check of "
+                 f"another property (listed as `also` in meta.json), {len(live) - own - other} not caught.\n\n")
         fh.write('| seed | property | needs to manifest | outcome |\n|---|---|---|---|\n' + '\n'.join(rows) + '\n')
 
 
